@@ -20,11 +20,18 @@ import (
 //	linkRemoveDeferred   linkCollectionImpl.CheckIntegrity calls RemoveLink for dangling links in a loop AFTER the
 //	                     link-cursor loop (true) or inside it, i.e. deletes under its own cursor (false)
 //
+//	fkRepairAtPath       the dangling-reference repair of fkIndex.CheckIntegrity AND fkConstraint.CheckIntegrity clears the
+//	                     value where it is stored: `tryFix := index.nullable && fix && len(path) > 0` and
+//	                     `fieldBucket.Put([]byte(path[len(path)-1]), nil)` (true); or attempts it only for direct keys:
+//	                     `tryFix := index.nullable && fix && len(index.symbol.GetPath()) == 1` and
+//	                     `entityBucket.Put([]byte(index.symbol.GetPath()[0]), nil)` (false)
+//
 // Anything else is written as recognised = false, which breaks the obligation `quirks_recognised`.
 type c09Quirks struct {
 	IterateLinksCreates bool   `json:"iterateLinksCreates"`
 	EmptyUniqueIsNil    bool   `json:"emptyUniqueIsNil"`
 	LinkRemoveDeferred  bool   `json:"linkRemoveDeferred"`
+	FkRepairAtPath      bool   `json:"fkRepairAtPath"`
 	Recognised          bool   `json:"recognised"`
 	Note                string `json:"note,omitempty"`
 }
@@ -170,6 +177,51 @@ func extractC09Quirks(repo, gen, facts string) {
 			note("uniqueIndex.CheckIntegrity: nil test of the entity loop not recognised")
 		}
 	}
+	if f, err := parser.ParseFile(fset, filepath.Join(repo, "boltz", "indexes.go"), nil, 0); err == nil {
+		newShape, oldShape := 0, 0
+		for _, recv := range []string{"fkIndex", "fkConstraint"} {
+			fd := c09Method(f, recv, "CheckIntegrity")
+			if fd == nil || fd.Body == nil {
+				note(recv + ".CheckIntegrity not found")
+				continue
+			}
+			tryFix, put := "", ""
+			ast.Inspect(fd.Body, func(n ast.Node) bool {
+				switch x := n.(type) {
+				case *ast.AssignStmt:
+					if len(x.Lhs) == 1 && len(x.Rhs) == 1 {
+						if id, ok := x.Lhs[0].(*ast.Ident); ok && id.Name == "tryFix" {
+							tryFix = c09Render(fset, x.Rhs[0])
+						}
+					}
+				case *ast.CallExpr:
+					if se, ok := x.Fun.(*ast.SelectorExpr); ok && se.Sel.Name == "Put" && len(x.Args) == 2 {
+						if c09Render(fset, x.Args[1]) == "nil" {
+							put = c09Render(fset, x)
+						}
+					}
+				}
+				return true
+			})
+			switch {
+			case tryFix == "index.nullable && fix && len(path) > 0" && put == "fieldBucket.Put([]byte(path[len(path)-1]), nil)":
+				newShape++
+			case tryFix == "index.nullable && fix && len(index.symbol.GetPath()) == 1" &&
+				put == "entityBucket.Put([]byte(index.symbol.GetPath()[0]), nil)":
+				oldShape++
+			default:
+				note(recv + ".CheckIntegrity: dangling-reference repair not recognised (tryFix := " + tryFix + "; " + put + ")")
+			}
+		}
+		switch {
+		case newShape == 2:
+			q.FkRepairAtPath = true
+		case oldShape == 2:
+			q.FkRepairAtPath = false
+		case newShape+oldShape == 2:
+			note("fkIndex and fkConstraint repair dangling references differently")
+		}
+	}
 	b := func(v bool) string {
 		if v {
 			return "true"
@@ -184,6 +236,8 @@ func extractC09Quirks(repo, gen, facts string) {
 		"def c09EmptyUniqueIsNil : Bool := " + b(q.EmptyUniqueIsNil) + "\n\n" +
 		"/-- linkCollectionImpl.CheckIntegrity removes dangling links after its link-cursor loop -/\n" +
 		"def c09LinkRemoveDeferred : Bool := " + b(q.LinkRemoveDeferred) + "\n\n" +
+		"/-- fkIndex / fkConstraint .CheckIntegrity clear a dangling nullable reference at the symbol's path (prefix ++ [key]) -/\n" +
+		"def c09FkRepairAtPath : Bool := " + b(q.FkRepairAtPath) + "\n\n" +
 		"/-- all code sites had one of the shapes the extractor knows -/\n" +
 		"def c09QuirksRecognised : Bool := " + b(q.Recognised) + "\n\n" +
 		"end StorageModel.Generated\n"
